@@ -11,6 +11,7 @@ the replay of a solver witness against the real code, with no solver and no prox
 z3 is imported lazily so that replays run under an interpreter without z3.
 """
 import time
+import os
 
 _z3 = None
 
@@ -34,6 +35,10 @@ class Abort(BaseException):
 
 class Inconclusive(BaseException):
     """solver said unknown"""
+
+
+class PathTimeout(BaseException):
+    """one path of the code under test did not terminate within the watchdog limit"""
 
 
 _cur = None
@@ -683,11 +688,31 @@ def _one_path(run, plan, timeout_ms, want_sample):
            'checks': 0, 'str_used': 0, 'sample': None}
     ctx = SymCtx(plan, timeout_ms)
     _cur = ctx
+    import signal
+    limit = int(os.environ.get('VERIF_PATH_TIMEOUT', '120'))
+
+    def _alarm(signum, frame):
+        raise PathTimeout()
+    old_handler = None
+    try:
+        old_handler = signal.signal(signal.SIGALRM, _alarm)
+        signal.alarm(limit)
+    except (ValueError, OSError):
+        old_handler = None
     try:
         ret = run(ctx)
         out['completed'] = True
         if ret is False:
             ctx.checks.append(('harness returned False', False))
+    except PathTimeout:
+        # non-termination of the code under test on this path: candidate violation, confirmed if the concrete replay does not terminate either
+        out['status'] = 'cex'
+        out['failed'] = 'does not terminate (no result within %d s on one path)' % limit
+        try:
+            signal.alarm(0)
+            out['cex'] = ctx.model_assignment() if ctx._check() == 'sat' else None
+        except BaseException:
+            out['cex'] = {'vars': {}, 'choices': [c[1] for c in ctx.choices]}
     except Abort:
         out['aborted'] = True
     except Inconclusive as e:
@@ -695,7 +720,7 @@ def _one_path(run, plan, timeout_ms, want_sample):
         out['detail'] = 'solver: %s' % (e,)
     except Exception as e:
         # an exception escaping the real code on this path: candidate violation, decided by the concrete replay
-        import traceback, os
+        import traceback
         tb = traceback.extract_tb(e.__traceback__)
         where = ' <- '.join('%s:%d' % (f.filename.split('/')[-1], f.lineno) for f in tb[-3:][::-1])
         repo_root = os.path.realpath(os.environ.get('VERIF_REPO', '/repo')) + os.sep
@@ -730,6 +755,12 @@ def _one_path(run, plan, timeout_ms, want_sample):
         out['detail'] = 'unsupported operation on a symbolic value: %s' % (e,)
     finally:
         _cur = None
+        try:
+            signal.alarm(0)
+            if old_handler is not None:
+                signal.signal(signal.SIGALRM, old_handler)
+        except (ValueError, OSError):
+            pass
     if out['completed'] and out['status'] == 'ok':
         out['str_used'] = ctx.str_used
         try:
